@@ -61,6 +61,9 @@ type Contract struct {
 	Ensures       []Clause
 	Assigns       []*Expr
 	AssignsAll    bool
+	Stable        []Clause // closures: predicates over captured variables preserved by every call
+	SelfCallback  bool     // closures: a callback of unknown identity passed on by this closure is the closure itself
+	Callbacks     []string // externs: parameters that are callbacks invoked any number of times
 	HasAssigns    bool
 	Loops         map[int][]Clause
 	PanicsWhen    []Clause
@@ -324,7 +327,7 @@ func (db *SpecDB) LoadSpecFile(path string) error {
 			db.Axioms = append(db.Axioms, c)
 			db.Markers = append(db.Markers, "axiom "+c.Label)
 			cur = nil
-		case "requires", "ensures", "defines", "panics", "assigns", "loop", "property", "inline", "pure", "nosafety", "opaque", "params", "results", "calls", "frameprop", "trusted", "purecallbacks":
+		case "requires", "ensures", "defines", "stable", "callback", "selfcallback", "panics", "assigns", "loop", "property", "inline", "pure", "nosafety", "opaque", "params", "results", "calls", "frameprop", "trusted", "purecallbacks":
 			if cur == nil {
 				return fail(fmt.Errorf("clause outside a contract"))
 			}
@@ -349,6 +352,19 @@ func (db *SpecDB) LoadSpecFile(path string) error {
 				c.Defining = true
 				cur.Ensures = append(cur.Ensures, c)
 				db.Markers = append(db.Markers, "defines "+cur.Name+": "+c.Src)
+			case "stable":
+				c, err := parseClause(rest)
+				if err != nil {
+					return fail(err)
+				}
+				cur.Stable = append(cur.Stable, c)
+			case "selfcallback":
+				cur.SelfCallback = true
+				db.Markers = append(db.Markers, "selfcallback "+cur.Name)
+			case "callback":
+				for _, p := range strings.Split(rest, ",") {
+					cur.Callbacks = append(cur.Callbacks, strings.TrimSpace(p))
+				}
 			case "panics":
 				rest = strings.TrimSpace(strings.TrimPrefix(rest, "when"))
 				c, err := parseClause(rest)
@@ -440,7 +456,7 @@ func (db *SpecDB) LoadSpecFile(path string) error {
 	return nil
 }
 
-var keywords = map[string]bool{"macro": true, "functype": true, "global": true, "func": true, "extern": true, "method": true, "ufun": true, "fun": true, "axiom": true, "const": true, "defines": true, "monitor": true, "protects": true, "invariant": true,
+var keywords = map[string]bool{"macro": true, "functype": true, "global": true, "func": true, "extern": true, "method": true, "ufun": true, "fun": true, "axiom": true, "const": true, "defines": true, "monitor": true, "protects": true, "invariant": true, "stable": true, "callback": true, "selfcallback": true,
 	"requires": true, "ensures": true, "panics": true, "assigns": true, "loop": true, "property": true, "inline": true, "pure": true,
 	"nosafety": true, "opaque": true, "params": true, "results": true, "calls": true, "frameprop": true, "trusted": true, "purecallbacks": true}
 
